@@ -16,6 +16,7 @@ import (
 	"net/http"
 	"net/http/httptest"
 	"os"
+	"runtime"
 	"strconv"
 	"strings"
 	"sync"
@@ -94,13 +95,18 @@ func sessionUser(ctx context.Context, tag string) {
 	if !ok || sess == nil {
 		return
 	}
+	// reads first, without touching the session's own mutex in between (a lock operation of ours next to the read
+	// would order it with the other requests' updates and hide what user code can see)
+	for i := 0; i < 3; i++ {
+		_ = sess.GetLastActivity()
+		_ = sess.GetCreatedAt()
+		_ = sess.GetID()
+		runtime.Gosched()
+	}
 	sess.SetData("k-"+tag, tag)
 	sess.GetData("k-" + tag)
 	sess.GetData("protocolVersion")
-	_ = sess.GetLastActivity()
 	sess.UpdateActivity()
-	_ = sess.GetCreatedAt()
-	_ = sess.GetID()
 }
 
 func toolWork(ctx context.Context, req *mcp.CallToolRequest) (*mcp.CallToolResult, error) {
@@ -416,6 +422,18 @@ const initBody = `{"jsonrpc":"2.0","id":1,"method":"initialize","params":{"proto
 func scSrvResume(ch *child) {
 	f := newStreamSrv(false)
 	defer f.close()
+	// scheduling point of the verif build right after a GET stream sent its headers: a notification for that session
+	// is sent from another goroutine exactly then (started, not waited for: no ordering is added)
+	var kicks atomic.Int64
+	mcp.VerifSetYield(func(point string, r *http.Request) {
+		if point == "get:flushed" && r.Header.Get("Last-Event-ID") != "" {
+			sid := r.Header.Get("Mcp-Session-Id")
+			kicks.Add(1)
+			go f.s.SendNotification(sid, "notifications/message", map[string]interface{}{"level": "info", "data": "kick"})
+			time.Sleep(2 * time.Millisecond)
+		}
+	})
+	defer mcp.VerifSetYield(nil)
 	var wg sync.WaitGroup
 	for k := 0; k < 4; k++ {
 		wg.Add(1)
@@ -511,13 +529,44 @@ func scCliStreamable(ch *child) {
 	}
 }
 
+// gate is a custom HTTPReqHandler (public extension point): it performs the request as the default handler does and
+// lets the first n answers return to the library together, so that the goroutines process them at the same time.
+type gate struct {
+	n       int32
+	arrived atomic.Int32
+	open    chan struct{}
+}
+
+func (g *gate) Handle(ctx context.Context, client *http.Client, req *http.Request) (*http.Response, error) {
+	// a connection of its own per request: the shared connection pool's mutexes would order the goroutines by accident
+	resp, err := (&http.Client{Transport: &http.Transport{DisableKeepAlives: true}}).Do(req)
+	if k := g.arrived.Add(1); k <= g.n {
+		if k == g.n {
+			close(g.open)
+		}
+		select {
+		case <-g.open:
+		case <-time.After(2 * time.Second):
+		}
+	}
+	return resp, err
+}
+
 // scCliFirst: the first use of a client made from several goroutines at once (stateful and stateless server).
 func scCliFirst(ch *child) {
 	ctx := context.Background()
 	for _, stateless := range []bool{true, false} {
 		f := newStreamSrv(stateless)
-		for round := 0; round < 3*ch.scale; round++ {
+		for round := 0; round < 10*ch.scale; round++ {
 			c := newStreamClient(f.url)
+			if round%2 == 0 {
+				var err error
+				c, err = mcp.NewClient(f.url, impl, mcp.WithClientLogger(hk.QuietLogger{}), mcp.WithClientGetSSEEnabled(true),
+					mcp.WithHTTPReqHandler(&gate{n: 4, open: make(chan struct{})}))
+				if err != nil {
+					panic(err)
+				}
+			}
 			var wg sync.WaitGroup
 			for g := 0; g < 4; g++ {
 				wg.Add(1)
